@@ -668,6 +668,32 @@ func runC12(c *Ctx) {
 			add("ack", "ack selecting accepts only the offered transaction or the current lease", hr, nil, ok, fmt.Sprintf("truth table of the refusal condition over %d consistent valuations of 7 atoms", n), why)
 		}
 	}
+	// a lease restored from the file is attached to the netfilter subnet only if its address lies inside that subnet
+	// (otherwise the first OFFER/ACK after a restart carries a home-LAN address with the netfilter mask and router)
+	if fn := c.P.Method(dhcpRel, "Handler", "loadByteArray"); fn != nil {
+		core.EachInstr(fn, func(i ssa.Instruction) {
+			st, ok := i.(*ssa.Store)
+			if !ok || !strings.HasSuffix(norm(st.Addr), "local(v).subnet") {
+				return
+			}
+			gs := guardsOf(i)
+			if !hasGuard(gs, `IsCaptured\(`) {
+				return // the default (home subnet); the home-LAN test follows before the insertion (C18 insert-guards)
+			}
+			same := false
+			for _, g := range gs {
+				call, ok := g.Cond.(*ssa.Call)
+				if !ok || !g.Pol || !strings.HasSuffix(core.CalleeName(call), "Prefix).Contains") || len(call.Call.Args) != 2 {
+					continue
+				}
+				if subnetOfPrefix(call.Call.Args[0]) == st.Val {
+					same = true
+				}
+			}
+			add("subnet", "restored lease attached to the netfilter subnet only with an address inside it", fn, i, same, "a dominating Contains test on the LAN of the subnet being attached",
+				"loadByteArray attaches a captured client's lease to the netfilter subnet without testing the address against that subnet's prefix")
+		})
+	}
 	// destination
 	if fn := c.P.Method(dhcpRel, "Handler", "ProcessPacket"); fn != nil {
 		ok := false
